@@ -84,6 +84,7 @@ PROP = [  # (subject fragment, property, also)
  ("re-resolves the column positions of the table's remaining foreign keys", "C33", "C24"),
  ("rejected ALTER TABLE ADD CONSTRAINT FOREIGN KEY (cycle of foreign keys) leaves the table", "C33", ""),
  ("COUNT(*) fast path checks the SELECT privilege", "C26", ""),
+ ("DROP COLUMN is refused when the rest of a multi-column UNIQUE constraint", "C33", "C10"),
  ("index-backed IN (subquery) shortcut checks the SELECT privilege", "C26", ""),
 ]
 def main():
